@@ -507,7 +507,7 @@ def discrete_history_guard(repo, rep):
 # ---------------------------------------------------------------------------
 # STATE: nothing survives from one call to the next
 # ---------------------------------------------------------------------------
-def state_rule(repo, rep, modules=("simulation", "analytic", "auxiliary", "simulation_investigation", "__init__")):
+def state_rule(repo, rep, modules=("simulation", "analytic", "auxiliary", "simulation_investigation", "__init__"), only_classes=None):
     rep.rule("STATE", "no state survives a call: no parameter default that is evaluated once and then shared (a call other than "
                       "float()/int(), a list / dict / set display or comprehension), and no class-level data attribute holding a "
                       "mutable object (every instance would share it)")
@@ -516,6 +516,8 @@ def state_rule(repo, rep, modules=("simulation", "analytic", "auxiliary", "simul
         tree = repo.mods[m]
         for n in ast.walk(tree):
             if isinstance(n, (ast.FunctionDef, ast.Lambda)):
+                if only_classes is not None:
+                    continue
                 nfun += 1
                 bad = []
                 for d in n.args.defaults + [k for k in n.args.kw_defaults if k is not None]:
@@ -536,6 +538,8 @@ def state_rule(repo, rep, modules=("simulation", "analytic", "auxiliary", "simul
                     rep.ob("STATE", True, "%s: default argument values are immutable constants" % name, func=f, node=n,
                            construct="defaults of %s" % name)
             elif isinstance(n, ast.ClassDef):
+                if only_classes is not None and n.name not in only_classes:
+                    continue
                 ncls += 1
                 for b in n.body:
                     tgt = val = None
@@ -554,7 +558,10 @@ def state_rule(repo, rep, modules=("simulation", "analytic", "auxiliary", "simul
                            "the process); methods that update it in place leak state from one simulation into the next" % short(b, 60))
     rep.count("STATE:functions examined", nfun)
     rep.count("STATE:classes examined", ncls)
-    rep.floor("STATE", "functions examined", nfun, 150)
+    if only_classes is None:
+        rep.floor("STATE", "functions examined", nfun, 150)
+    else:
+        rep.floor("STATE", "classes examined", ncls, len(only_classes))
 
 
 # ---------------------------------------------------------------------------
